@@ -16,6 +16,7 @@ pub mod c13;
 pub mod c14;
 pub mod c15;
 pub mod c16;
+pub mod c17;
 pub mod c19;
 
 pub fn run(ctx: &mut Ctx) -> bool {
@@ -35,6 +36,7 @@ pub fn run(ctx: &mut Ctx) -> bool {
         "C14" => c14::run(ctx),
         "C15" => c15::run(ctx),
         "C16" => c16::run(ctx),
+        "C17" => c17::run(ctx),
         "C19" => c19::run(ctx),
         _ => return false,
     }
